@@ -2,8 +2,9 @@
    behind reference objects; Spec/PageTreeEditRef.v) is an INVARIANT of editing programs.  The route of EditProofsTree3.v:
    [page_doc_ref] reads (a) the entries Type / Kids / Count / Parent / Pages of dictionary objects ([stable], EditProofsTree3.v)
    and (b) the REFERENCE OBJECTS and INTEGER OBJECTS its paths pass: a page id's path to its dictionary ([leads]), a Count's
-   path to its integer ([count_reads]).  An operation that leaves (a) and every reference / integer object alone ([frame])
-   keeps [page_doc_ref] with the same tree; delete_pages prunes it ([delete_pages_tree_ref]). *)
+   path to its integer ([count_reads]).  An operation that leaves (a) and every reference / integer object alone ([frame]; on
+   the support of the tree: [frame_on]) keeps [page_doc_ref] with the same tree; delete_pages prunes it
+   ([delete_pages_tree_ref]); delete_object off the support: [delete_outside_ref]. *)
 From LV Require Import Base.Bytes Model.Obj Model.DocQ Model.PageTree Model.Traverse Model.Edit Model.StreamFilt Model.Writer Gen.Consts
   Spec.Dfs Spec.DfsCounts Spec.RenumberSpec Spec.PageTreeEdit Spec.PageTreeEditInd Spec.PageTreeEditRef
   Proofs.RenumberProofsMap Proofs.PageTreeProofs Proofs.EditProofs Proofs.EditProofsTrav Proofs.EditProofsDelete
@@ -411,6 +412,132 @@ Proof.
     rewrite Lo, Gc. exact Hv.
 Qed.
 
+(* ---------- delete_object of an object off the support ---------- *)
+Lemma deref_int_del3 m m1 p :
+  (forall x, x <> p -> lookup m1 x = lookup m x \/ lookup m1 x = option_map (strip p) (lookup m x)) ->
+  forall f last o n, int_result (deref_aux m f last o) = Some n -> (forall y, In y (deref_ids m f o) -> y <> p) ->
+    int_result (deref_aux m1 f last o) = Some n /\ strip p o = o.
+Proof.
+  intros Hx. induction f as [|f IH]; intros last o n; destruct o as [| | | | | | | | |i g]; cbn [deref_aux int_result deref_ids];
+    try discriminate; try (intros H _; split; [exact H | reflexivity]).
+  - destruct (lookup m (i, g)); discriminate.
+  - destruct (lookup m (i, g)) as [o'|] eqn:L; [|discriminate]. intros H Hy.
+    assert (Hne : (i, g) <> p) by (apply Hy; left; reflexivity).
+    destruct (IH (Some (i, g)) o' n H (fun y Hin => Hy y (or_intror Hin))) as [H1 H2].
+    split; [|cbn [strip]; replace (oid_eqb (i, g) p) with false by (symmetry; apply oid_eqb_neq; exact Hne); reflexivity].
+    destruct (Hx (i, g) Hne) as [E1|E1]; rewrite E1, L; [exact H1|]. cbn [option_map]. rewrite H2. exact H1.
+Qed.
+
+Lemma read_count_del3 m m1 p :
+  (forall x, x <> p -> lookup m1 x = lookup m x \/ lookup m1 x = option_map (strip p) (lookup m x)) ->
+  forall d n, dict_wf d ->
+    (forall c y, dict_get d K_Count = Some c -> In y (deref_ids m (N.to_nat DEREF_LIMIT) c) -> y <> p) ->
+    read_count m d = Some n -> read_count m1 (sd p d) = Some n.
+Proof.
+  intros Hx d n W Hc. unfold read_count. destruct (dict_get d K_Count) as [c|] eqn:G; [|discriminate].
+  intro H.
+  assert (Hi : int_result (dereference m c) = Some n).
+  { destruct (dereference m c) as [[r o]|]; [|discriminate]. destruct o; try discriminate. exact H. }
+  destruct (deref_int_del3 m m1 p Hx _ None c n Hi (fun y Hy => Hc c y eq_refl Hy)) as [H1 H2]. fold (dereference m1 c) in H1.
+  rewrite (sd_get p d K_Count c W G (strip_id_not_ref p c H2)), H2.
+  destruct (dereference m1 c) as [[r o]|]; [|discriminate]. destruct o; try discriminate. exact H1.
+Qed.
+
+Section DelRef.
+  Variables (m m1 : objmap) (p : oid) (T : ptree).
+  Hypothesis M1 : forall x d, In x (ids T) -> lookup m x = Some (ODict d) -> lookup m1 x = Some (ODict (sd p d)).
+  Hypothesis RC : forall x d n, In x (ids T) -> lookup m x = Some (ODict d) -> dict_get d K_Type = Some (OName K_Pages) ->
+    dict_wf d -> read_count m d = Some n -> read_count m1 (sd p d) = Some n.
+  Hypothesis HL : forall x o via d, In x (ids T) -> lookup m x = Some o -> leads m o via d ->
+    (N.of_nat (length via) <= DEREF_LIMIT)%N -> dict_get d K_Type = Some (OName K_Page) ->
+    exists o2 d2, lookup m1 x = Some o2 /\ leads m1 o2 via d2 /\ (d2 = d \/ d2 = sd p d).
+
+  Lemma page_tree_ref_del :
+    (forall t par, incl (ids t) (ids T) -> page_tree_ref m par t -> ~ In p (ids t) -> par <> Some p -> page_tree_ref m1 par t) /\
+    (forall f par, incl (flat_map ids f) (ids T) -> Forall (page_tree_ref m par) f -> ~ In p (flat_map ids f) -> par <> Some p ->
+       Forall (page_tree_ref m1 par) f).
+  Proof.
+    apply ptree_forest_ind.
+    - intros i par Hi PT Hn Hpar.
+      inversion PT as [? ? o via d L Ld Hl W Ty Pa|]; subst.
+      destruct (HL i o via d (Hi i (or_introl eq_refl)) L Ld Hl Ty) as [o2 [d2 [L2 [Ld2 Hd2]]]].
+      rewrite parent_ref_as_ref in Hpar.
+      destruct Hd2 as [->| ->].
+      + eapply PRLeaf; [exact L2 | exact Ld2 | exact Hl | exact W | exact Ty | reflexivity].
+      + eapply PRLeaf; [exact L2 | exact Ld2 | exact Hl | apply sd_wf; exact W | apply sd_get_name; assumption|].
+        rewrite !parent_ref_as_ref. apply sd_parent; assumption.
+    - intros i ks Q par Hi PT Hn Hpar.
+      inversion PT as [|? ? d ? L W Ty Kd Ct Pa F]; subst.
+      assert (Hip : i <> p) by (intro E; apply Hn; left; exact E).
+      assert (Hnk : ~ In p (flat_map ids ks)) by (intro H; apply Hn; right; exact H).
+      assert (Hnk' : ~ In p (flat_map nodes ks)) by (intro H; apply Hnk; apply (proj2 nodes_ids); exact H).
+      pose proof (M1 i d (Hi i (or_introl eq_refl)) L) as L2.
+      pose proof Ct as Ct0. apply count_reads_read in Ct0.
+      pose proof (RC i d _ (Hi i (or_introl eq_refl)) L Ty W Ct0) as Ct1.
+      eapply PRNode; [exact L2 | apply sd_wf; exact W | | | | |].
+      + apply sd_get_name; assumption.
+      + rewrite (sd_get p d K_Kids _ W Kd eq_refl). rewrite strip_kids by exact Hnk'.
+        rewrite (proj2 (prune_notin p) ks Hnk). reflexivity.
+      + apply count_reads_read. exact Ct1.
+      + rewrite parent_ref_as_ref in *. apply sd_parent; assumption.
+      + apply Q; [intros x Hx; apply Hi; right; exact Hx | exact F | exact Hnk | intro E; inversion E; congruence].
+    - intros par _ _ _ _. constructor.
+    - intros k ks P Q par Hi F Hn Hpar. inversion F as [|? ? Fk Fks]; subst. cbn [flat_map] in *.
+      apply incl_app_inv in Hi. destruct Hi as [Hik Hiks]. rewrite in_app_iff in Hn.
+      constructor; [apply P | apply Q]; tauto.
+  Qed.
+End DelRef.
+
+Lemma delete_outside_ref d t p d1 r :
+  doc_wf d -> page_doc_ref d t -> ~ tree_support d t p -> delete_object d p = Some (d1, r) -> page_doc_ref d1 t.
+Proof.
+  intros W [ci [cg [cat [Wt [Rt [Lc [Wc [Pg [Nd [PT [ND [Hc NE]]]]]]]]]]]] Hout E.
+  assert (Hni : ~ In p (ids t)) by (intro H; apply Hout; right; left; exact H).
+  assert (Hcp : (ci, cg) <> p) by (intro H; apply Hout; left; rewrite <- H; exact Rt).
+  assert (Hn : ~ In p (nodes t)) by (intro H; apply Hni; apply (proj1 nodes_ids); exact H).
+  assert (Hr : root_id t <> p).
+  { intro H. apply Hni. rewrite <- H. destruct t; left; reflexivity. }
+  destruct (delete_reaches_ref d t p ci cg cat d1 r W Wt Rt Lc Wc Pg PT Hn Hr Hcp E) as [T1 [Lc1 [M1 [Lp1 Hres]]]].
+  pose proof (delete_object_any d p d1 r W E) as Any.
+  assert (Hxp : forall x, In x (ids t) -> x <> p) by (intros x Hx E1; subst x; exact (Hni Hx)).
+  assert (HL : forall x o via dd, In x (ids t) -> lookup (d_objects d) x = Some o -> leads (d_objects d) o via dd ->
+            (N.of_nat (length via) <= DEREF_LIMIT)%N -> dict_get dd K_Type = Some (OName K_Page) ->
+            exists o2 dd2, lookup (d_objects d1) x = Some o2 /\ leads (d_objects d1) o2 via dd2 /\ (dd2 = dd \/ dd2 = sd p dd)).
+  { intros x o via dd Hx Lx Ld Hl Ty.
+    destruct (proj1 ids_split t x Hx) as [Hxl|Hxn].
+    - assert (Hav : ~ In p via).
+      { intro Hin. apply Hout. right. right. left. exists x, o, via, dd. repeat split; assumption. }
+      destruct (leads_del (d_objects d) (d_objects d1) p Any o via dd Ld Hav) as [[da [A1 B1]] [db [A2 B2]]].
+      destruct (Any x (Hxp x Hx)) as [E1|E1]; rewrite Lx in E1.
+      + exists o, da. split; [exact E1|]. split; assumption.
+      + exists (strip p o), db. split; [exact E1|]. split; assumption.
+    - exfalso. destruct (proj1 (page_tree_ref_nodes (d_objects d)) t None PT x Hxn) as [dn [Ln Tn]].
+      exact (leads_no_pages (d_objects d) x o via dd Lx Ld Ty x dn (or_introl eq_refl) Ln Tn). }
+  assert (RC : forall x dx n, In x (ids t) -> lookup (d_objects d) x = Some (ODict dx) ->
+            dict_get dx K_Type = Some (OName K_Pages) -> dict_wf dx ->
+            read_count (d_objects d) dx = Some n -> read_count (d_objects d1) (sd p dx) = Some n).
+  { intros x dx n Hx Lx Ty Wx. apply (read_count_del3 (d_objects d) (d_objects d1) p Any dx n Wx).
+    intros c y Gc Hy E1. subst y. apply Hout. right. right. right. exists x, dx, c. repeat split; assumption. }
+  assert (PT' : page_tree_ref (d_objects d1) None t).
+  { apply (proj1 (page_tree_ref_del (d_objects d) (d_objects d1) p t
+                    (fun x dx Hx Lx => M1 x dx Hx (Hxp x Hx) Lx) RC HL) t None (incl_refl _) PT Hni).
+    discriminate. }
+  exists ci, cg, (sd p cat).
+  split; [unfold unique_keys; rewrite T1; apply sd_wf; exact Wt|].
+  split; [rewrite T1, (sd_get p _ K_Root _ Wt Rt)|].
+  { cbn [strip]. replace (oid_eqb (ci, cg) p) with false by (symmetry; apply oid_eqb_neq; exact Hcp). reflexivity. }
+  { cbn [is_ref_to]. apply oid_eqb_neq. exact Hcp. }
+  split; [exact Lc1|]. split; [apply sd_wf; exact Wc|].
+  split; [rewrite (sd_get p cat K_Pages _ Wc Pg (is_ref_to_ref_of p t Hr)), strip_ref_of by exact Hr;
+          rewrite (proj1 (prune_notin p) t Hni); reflexivity|].
+  split; [exact Nd|]. split; [exact PT'|]. split; [exact ND|]. split; [exact Hc|].
+  rewrite (map_ext_in (end_of (d_objects d1)) (end_of (d_objects d))); [exact NE|].
+  intros x Hx.
+  destruct (proj1 (page_tree_ref_leaves (d_objects d)) t None PT x Hx) as [o [via [dd [Lx [Ld [Hl [Wx [Tx _]]]]]]]].
+  destruct (HL x o via dd (proj1 leaves_ids t x Hx) Lx Ld Hl Tx) as [o2 [dd2 [L2 [Ld2 _]]]].
+  rewrite (end_of_leads _ x o via dd Lx Ld Hl), (end_of_leads _ x o2 via dd2 L2 Ld2 Hl). reflexivity.
+Qed.
+
 (* ---------- one step ---------- *)
 (* the domain of a step on [page_doc_ref]: [tree_op_dom] with "a node of the tree or the catalog" widened to the SUPPORT of the
    tree: the catalog, the nodes, the reference objects a page id passes on the way to its dictionary and the object holding
@@ -424,9 +551,6 @@ Definition tree_op_dom_ref (d : doc) (t : ptree) (o : op) : Prop :=
   | _ => True
   end.
 
-(* the operations lifted so far: all of [step] but delete_object (and renumber_objects: [tree_op_dom_ref]) *)
-Definition lifted (o : op) : Prop := match o with DeleteObject _ => False | _ => True end.
-
 Lemma tree_support_contains d t x : tree_or_cat d t x -> tree_support d t x.
 Proof. intros [H|H]; [right; left; exact H | left; exact H]. Qed.
 
@@ -438,15 +562,15 @@ Proof.
 Qed.
 
 Theorem step_page_doc_ref O d t o :
-  doc_wf d -> alloc_ok d -> page_doc_ref d t -> hbound t -> tree_op_dom_ref d t o -> lifted o ->
+  doc_wf d -> alloc_ok d -> page_doc_ref d t -> hbound t -> tree_op_dom_ref d t o ->
   page_doc_ref (fst (step O d o)) (tree_after d t o) /\ hbound (tree_after d t o).
 Proof.
-  intros W A PD Hh Dm Lf.
+  intros W A PD Hh Dm.
   assert (Wt : unique_keys (d_trailer d)) by (destruct PD as [ci [cg [cat [Wt _]]]]; exact Wt).
   assert (Hsame : forall d', all_stable d d' -> chain_same (d_objects d) (d_objects d') -> page_doc_ref d' t /\ hbound t).
   { intros d' S C. split; [eapply page_doc_ref_frame; [exact PD | eapply frame_of_all_stable; eassumption] | exact Hh]. }
   assert (Hrefl : page_doc_ref d t /\ hbound t) by (split; assumption).
-  destruct o; cbn [step tree_after tree_op_dom_ref lifted] in *.
+  destruct o; cbn [step tree_after tree_op_dom_ref] in *.
   - (* new_object_id *)
     destruct (new_object_id d) as [[d' i]|] eqn:E; cbn [fst]; [|exact Hrefl].
     apply new_object_id_spec in E. destruct E as [_ [_ [E2 [E3 _]]]]. apply Hsame.
@@ -461,7 +585,9 @@ Proof.
     + intros x Hx. unfold set_object. cbn [d_objects with_objs]. apply stable_insert_other. intro E. subst x. exact (Hout Hx).
     + intros x o' Hx L _. unfold set_object. cbn [d_objects with_objs]. rewrite lookup_insert.
       replace (oid_eqb id x) with false; [exact L|]. symmetry. apply oid_eqb_neq. intro E. subst x. exact (Hout Hx).
-  - destruct Lf.
+  - (* delete_object *)
+    destruct (delete_object d id) as [[d' r]|] eqn:E; cbn [fst]; [|exact Hrefl].
+    split; [eapply delete_outside_ref; eassumption | exact Hh].
   - (* remove_object *)
     destruct (remove_annot d id) as [d' ok] eqn:E. cbn [fst]. apply Hsame; [eapply remove_annot_stable | eapply remove_annot_chain]; exact E.
   - (* prune_objects *)
@@ -503,7 +629,7 @@ Qed.
 Fixpoint tree_prog_dom_ref (O : oracles) (d : doc) (t : ptree) (ops : list op) : Prop :=
   match ops with
   | [] => True
-  | o :: r => tree_op_dom_ref d t o /\ lifted o /\ tree_prog_dom_ref O (fst (step O d o)) (tree_after d t o) r
+  | o :: r => tree_op_dom_ref d t o /\ tree_prog_dom_ref O (fst (step O d o)) (tree_after d t o) r
   end.
 
 Theorem run_ops_page_doc_ref O : forall ops d t,
@@ -514,7 +640,7 @@ Theorem run_ops_page_doc_ref O : forall ops d t,
 Proof.
   induction ops as [|o ops IH]; intros d t W A PD Hh Dm; cbn [run_ops fold_left tree_end tree_prog_dom_ref] in *.
   - repeat (split; [assumption|]). split; [apply page_doc_ref_iter; assumption | apply (page_doc_ref_tree_wf d t PD)].
-  - destruct Dm as [Do [Lf Dr]]. destruct (step_page_doc_ref O d t o W A PD Hh Do Lf) as [PD' Hh'].
+  - destruct Dm as [Do Dr]. destruct (step_page_doc_ref O d t o W A PD Hh Do) as [PD' Hh'].
     pose proof (tree_op_dom_op_dom d t o (tree_op_dom_ref_dom d t o Do)) as Od.
     apply (IH (fst (step O d o)) (tree_after d t o)); try assumption.
     + apply step_wf; assumption.
@@ -525,7 +651,7 @@ Qed.
    Counts of 2 and 4 sit behind references) ---------- *)
 Definition tree_prog_ref : list op :=
   [AddObject (OInt 5); SetObject (15, 0)%N (OInt 7); AddPageContents (11, 0)%N (bs "q Q"); AddXObject (11, 0)%N K_Im1' (15, 0)%N;
-   DeletePages [2%N]; PruneObjects; Save false; Compress; DeletePages [1; 1]%N].
+   DeleteObject (15, 0)%N; DeletePages [2%N]; PruneObjects; Save false; Compress; DeletePages [1; 1]%N].
 
 Lemma tree_prog_ref_example :
   doc_wf tree_doc_ref /\ alloc_ok tree_doc_ref /\ page_doc_ref tree_doc_ref tree_ex_ind /\ hbound tree_ex_ind /\
@@ -545,9 +671,10 @@ Proof.
   split; [exact W|]. split; [|split; [exact PD|split; [exact Hh|]]].
   - intros id H. cbn in H. repeat (destruct H as [<-|H]; [cbn; lia|]). destruct H.
   - split; [|split; [vm_compute; reflexivity|split; [vm_compute; reflexivity|split; [|split]]]].
-    + cbn [tree_prog_ref tree_prog_dom_ref tree_op_dom_ref lifted]. repeat (split; [exact I|]).
+    + cbn [tree_prog_ref tree_prog_dom_ref tree_op_dom_ref]. split; [exact I|].
       split; [split; [apply Out; vm_compute; reflexivity | vm_compute; discriminate]|].
-      repeat (split; [exact I|]). split; [cbn; intuition discriminate|]. repeat (split; [exact I|]). exact I.
+      split; [exact I|]. split; [cbn; intuition discriminate|].
+      split; [apply Out; vm_compute; reflexivity|]. repeat (split; [exact I|]). exact I.
     + apply Out; vm_compute; reflexivity.
     + right. right. right. exists (2,0)%N. eexists. exists (ORef 7 0). split; [left; reflexivity|].
       split; [reflexivity|]. split; [reflexivity|]. split; [reflexivity|]. vm_compute. right. left. reflexivity.
